@@ -414,7 +414,7 @@ func run(r *eng.Runner) {
 	}
 
 	// ---- layer 7: recursion and depth ----
-	r.Group("recursion", "c01.case", "every self- and 2-cycle of include (static, lazy), extends, import, ssi parsed through an in-memory loader; deep nesting of ( [ if for with filter chains (depth 10000 / 2000); each in a fresh sub-process with a 32 MB stack cap")
+	r.Group("recursion", "c01.case", "every self- and 2-cycle of include (static, lazy), extends, import, ssi parsed through an in-memory loader, branching and mixed cycles; deep nesting of ( [ if for with filter chains (depth 10000 / 2000); each in a fresh sub-process with a 32 MB stack cap")
 	cyc := map[string]map[string]string{
 		"include-self":        {"/main": `{% include "main" %}`},
 		"include-self-lazy":   {"/main": `x{% include mainname %}`},
@@ -430,6 +430,13 @@ func run(r *eng.Runner) {
 		"include-in-block":    {"/main": `{% extends "b" %}{% block c %}{% include "main" %}{% endblock %}`, "/b": `{% block c %}{% endblock %}`},
 		"include-if-exists":   {"/main": `{% include "main" if_exists %}`},
 		"macro-includes-self": {"/main": `{% macro m() %}{% include "main" %}{% endmacro %}{{ m() }}`},
+		// branching recursion (the first branch must end the whole compilation / execution), longer cycles, mixed tags
+		"include-self-twice":        {"/main": `{% include "main" %}{% include "main" %}`},
+		"include-lazy-in-for":       {"/main": `x{% for i in "abc" %}{% include mainname if_exists %}{% endfor %}`},
+		"include-3cycle":            {"/main": `{% include "b" %}`, "/b": `{% include "c" %}`, "/c": `{% include "main" %}`},
+		"ssi-include-extends-cycle": {"/main": `{% ssi "b" parsed %}`, "/b": `{% extends "c" %}`, "/c": `{% block x %}{% include "main" %}{% endblock %}`},
+		"import-in-included":        {"/main": `{% include "b" %}`, "/b": `{% import "main" m %}{% macro n() export %}{% endmacro %}`},
+		"macro-lazy-include-self":   {"/main": `{% macro m(k) %}{% include mainname with d=k %}{% endmacro %}{{ m(1) }}`},
 	}
 	var cn []string
 	for k := range cyc {
